@@ -8,6 +8,7 @@ require (
 	github.com/AliceO2Group/Control v0.0.0
 	github.com/mesos/mesos-go v0.0.11
 	github.com/rs/xid v1.5.0
+	github.com/segmentio/kafka-go v0.4.47
 	github.com/sirupsen/logrus v1.9.3
 	google.golang.org/grpc v1.62.1
 	google.golang.org/protobuf v1.34.1
@@ -78,7 +79,6 @@ require (
 	github.com/prometheus/common v0.50.0 // indirect
 	github.com/prometheus/procfs v0.13.0 // indirect
 	github.com/sagikazarmark/slog-shim v0.1.0 // indirect
-	github.com/segmentio/kafka-go v0.4.47 // indirect
 	github.com/sergi/go-diff v1.3.2-0.20230802210424-5b0b94c5c0d3 // indirect
 	github.com/skeema/knownhosts v1.3.0 // indirect
 	github.com/sony/sonyflake v1.2.0 // indirect
